@@ -148,7 +148,7 @@ Proof. exact TableLemmas.csv_all_or_nothing. Qed.
 Print Assumptions C05_csv_all_or_nothing.
 
 (* non-vacuity: the CTC conversion of C06_entry_nonvacuous with the label volume inside the geff directory, onto a directory that
-   holds a geff beside a foreign group, overwrite=True: 4 recorded states (nodes, edges and geff attribute deleted; the volume
+   holds a geff beside a foreign group, overwrite=True: 4 recorded states (the three deletions of delete_geff, in whatever order it makes them; the volume
    written), FileExistsError, the end state keeps the foreign group and the volume and is not a geff *)
 Example C05_entry_nonvacuous :
   let d := Ctc.mkctc true (Some [Ctc.mkrow 1 0 1 0]) false [4%nat; 4%nat]
